@@ -188,6 +188,50 @@ theorem decode_int_partial (q : Quirks) (r : Arg) (n : Nat) (h : intPadTrigger q
   · simp only [intPadTrigger, hq, Bool.true_and, decide_eq_false_iff_not, Nat.not_lt] at h
     simp [Quirks.none, zfill, Nat.sub_eq_zero_of_le h, formatOutcomeInt]
 
+/-! ## The codec calls leave the caller's reading alone and repeat their result -/
+
+/-- trigger of quirk `formatOutcomePadsInPlace`: a list reading shorter than `out_len` -/
+def padInPlaceTrigger (q : Quirks) (out : List Bool) (outLen : Option Nat) : Bool :=
+  q.formatOutcomePadsInPlace && decide (out.length < outLen.getD out.length)
+
+/-- repaired model: `format_outcome` / `interpret_as_qtype` never change the list they are given -/
+theorem format_outcome_arg_pure (out : List Bool) (outLen : Option Nat) :
+    formatOutcomeArgAfter Quirks.none out outLen = out := by
+  simp [formatOutcomeArgAfter, Quirks.none]
+
+/-- the code as it is leaves the list alone outside the trigger -/
+theorem format_outcome_arg_partial (q : Quirks) (out : List Bool) (outLen : Option Nat)
+    (h : padInPlaceTrigger q out outLen = false) : formatOutcomeArgAfter q out outLen = out := by
+  unfold formatOutcomeArgAfter
+  cases hq : q.formatOutcomePadsInPlace
+  · simp
+  · simp only [padInPlaceTrigger, hq, Bool.true_and, decide_eq_false_iff_not] at h
+    simp [formatOutcome, h]
+
+/-- `decode_output` never changes the reading it is given (with or without the quirk: it calls
+`format_outcome` without `out_len` and copies) -/
+theorem decode_output_arg_pure (q : Quirks) (istr : List Bool) : decodeOutputArgAfter q istr = istr := by
+  unfold decodeOutputArgAfter formatOutcomeArgAfter
+  cases q.formatOutcomePadsInPlace <;> simp [formatOutcome]
+
+/-- a second call on the same object gives the same result and leaves the object as the first call
+left it — also with the quirk (the padded list has the requested length) -/
+theorem format_outcome_repeat (q : Quirks) (out : List Bool) (outLen : Option Nat) :
+    formatOutcome (formatOutcomeArgAfter q out outLen) outLen = formatOutcome out outLen ∧
+    formatOutcomeArgAfter q (formatOutcomeArgAfter q out outLen) outLen
+      = formatOutcomeArgAfter q out outLen := by
+  have idem : formatOutcome (formatOutcome out outLen) outLen = formatOutcome out outLen := by
+    cases outLen with
+    | none => simp [formatOutcome]
+    | some n =>
+      simp only [formatOutcome, Option.getD_some]
+      split
+      · simp only [List.length_append, List.length_replicate]
+        rw [if_neg (by omega)]
+      · rfl
+  unfold formatOutcomeArgAfter
+  cases q.formatOutcomePadsInPlace <;> simp [idem]
+
 /-! ## `output_qubits` -/
 
 /-- `output_qubits` is defined iff every name of `returns.bitvec` is a key of the qubit map -/
@@ -364,6 +408,13 @@ theorem decode_int_pad_right_witness :
   have h : binDigits 1 = ['1'] := by
     rw [binDigits]; simp [bitsLE_pos, bitsLE_zero, bitChar]
   simp only [decodeOutputInt, formatOutcomeInt, h, Quirks.none]
+  decide
+
+/-- defect `formatOutcomePadsInPlace`: after `format_outcome(l, 4)` with `l = [True]` the caller's
+`l` is `[True, False, False, False]`; repaired: still `[True]` -/
+theorem pad_in_place_witness :
+    formatOutcomeArgAfter { formatOutcomePadsInPlace := true } [true] (some 4) = [true, false, false, false]
+    ∧ formatOutcomeArgAfter Quirks.none [true] (some 4) = [true] := by
   decide
 
 end QV.C05
